@@ -900,7 +900,7 @@ func minInt(a, b int) int {
 
 func c14H(s string) string { return hx([]byte(s)) }
 
-var c14HostileKeys = []string{"", "error", "ignored", "invalid", "k", "k", "\xff\xfe", "a\nb", "position", "café", "\x00"}
+var c14HostileKeys = []string{"", "error", "ignored", "invalid", "k", "k", "\xff\xfe", "a\nb", "position", "café", "\x00", "x\n", " ", "\n", "t \t"}
 
 func c14GenArg(r *Rand, id int, hostile bool, forFmt bool) c14Arg {
 	n := strconv.Itoa(id)
@@ -1035,7 +1035,7 @@ func c14EmitShapes(emit func(op any), maxLen, batch int) {
 				c /= len(letters)
 			}
 			cur = append(cur, string(b))
-			if len(cur) == batch {
+			if len(cur) == batch || n <= 3 { // short shapes one per op: a failing one is then its own minimal replay
 				flush()
 			}
 		}
@@ -1044,7 +1044,7 @@ func c14EmitShapes(emit func(op any), maxLen, batch int) {
 }
 
 func c14Gen(r *Rand, tier string, emit func(op any)) {
-	nSw, nMsg, exLen, maxLen := 2200, 900, 4, 12
+	nSw, nMsg, exLen, maxLen := 3000, 1200, 5, 12
 	if tier == "thorough" {
 		nSw, nMsg, exLen = 40000, 20000, 8
 	}
@@ -1064,19 +1064,7 @@ func c14Gen(r *Rand, tier string, emit func(op any)) {
 	}
 	templates := []string{"", "", "%d %s", "100%", "%v%v", "%", "no verbs", "%[2]v %[1]v", "%!", "%s", "%d", "%+v|%#v", "%5.2f", "\xff%v", "%%", "%v %v %v %v"}
 	bases := []string{"Debug", "Info", "Warn", "Error", "DPanic", "Panic", "Fatal", "Log"}
-	for i := 0; i < nMsg; i++ {
-		m := bases[i%len(bases)] + []string{"", "f", "ln"}[(i/len(bases))%3]
-		args := c14GenArgs(r, 5, i%3 == 2, true)
-		if r.Chance(1, 6) {
-			args = []c14Arg{{T: "s", Tok: c14H(Pick(r, []string{"only", "", "%d", "a b"}))}}
-		}
-		if r.Chance(1, 8) {
-			args = []c14Arg{}
-		}
-		tpl := ""
-		if strings.HasSuffix(m, "f") {
-			tpl = Pick(r, templates)
-		}
+	emitMsg := func(m string, tpl string, args []c14Arg) {
 		vals := make([]any, len(args))
 		for j, a := range args {
 			vals[j] = c14Build(a)
@@ -1088,6 +1076,43 @@ func c14Gen(r *Rand, tier string, emit func(op any)) {
 			op.Lvl = 0
 		}
 		emit(op)
+	}
+	// boundary grid: argument lists on which Sprint / Sprintln / the single-string shortcut / trailing newlines differ
+	sArg := func(x string) c14Arg { return c14Arg{T: "s", Tok: c14H(x)} }
+	iArg := func(n int) c14Arg { return c14Arg{T: "i", Tok: c14H(strconv.Itoa(n))} }
+	special := [][]c14Arg{{}, {sArg("")}, {sArg("\n")}, {sArg("x\n")}, {sArg("x\n\n")}, {sArg("x ")}, {sArg("a"), sArg("b")}, {iArg(1), iArg(2)},
+		{sArg("a"), iArg(1)}, {iArg(1), sArg("a")}, {{T: "z", Tok: c14H("nil")}}, {sArg("%d")}, {iArg(7), sArg("\n")},
+		{{T: "e", Tok: c14H("boom\n")}}, {sArg(""), sArg("")}}
+	gi := 0
+	for _, args := range special {
+		for _, fam := range []string{"", "ln", "f"} {
+			tpls := []string{""}
+			if fam == "f" {
+				tpls = templates
+			}
+			for _, tpl := range tpls {
+				emitMsg(bases[gi%len(bases)]+fam, tpl, args)
+				gi++
+			}
+		}
+	}
+	for i := 0; i < nMsg; i++ {
+		m := bases[i%len(bases)] + []string{"", "f", "ln"}[(i/len(bases))%3]
+		args := c14GenArgs(r, 5, i%3 == 2, true)
+		if r.Chance(1, 6) {
+			args = []c14Arg{{T: "s", Tok: c14H(Pick(r, []string{"only", "", "%d", "a b"}))}}
+		}
+		if r.Chance(1, 8) {
+			args = []c14Arg{}
+		}
+		if r.Chance(1, 5) {
+			args = append(args, sArg(Pick(r, []string{"x\n", "\n", " ", "", "a\n\n", "t\t"})))
+		}
+		tpl := ""
+		if strings.HasSuffix(m, "f") {
+			tpl = Pick(r, templates)
+		}
+		emitMsg(m, tpl, args)
 	}
 }
 
